@@ -142,11 +142,11 @@ type Manifest struct {
 // Registry is the fake registry.  Not safe for concurrent use.
 type Registry struct {
 	Host      string
-	Scheme    string            // scheme written into absolute links
-	Cap       int               // server-imposed maximum page length (>= 1)
-	Tags      map[string][]Item // repository -> tags in the registry's order
-	Repos     []Item            // catalog in the registry's order
-	Referrers map[string][]Item // repository + "@" + subject digest -> referrers in the registry's order
+	Scheme    string              // scheme written into absolute links
+	Cap       int                 // server-imposed maximum page length (>= 1)
+	Tags      map[string][]Item   // repository -> tags in the registry's order
+	Repos     []Item              // catalog in the registry's order
+	Referrers map[string][]Item   // repository + "@" + subject digest -> referrers in the registry's order
 	Manifests map[string]Manifest // repository + "@" + tag or digest -> manifest
 	// Decide is the split oracle; x has Kind, Repo, Path and Query filled in.
 	Decide      func(x *Exchange) Decision
